@@ -362,10 +362,27 @@ pub fn run(s: &mut Sink) {
                 }
             }
         }
+        // longer histories around re-binding a helper id between two compilations
+        g += 1;
+        if s.take(g) {
+            for kind in ["raw", "mbuff", "fixed", "nodata"] {
+                let e = format!("exec:{pkt}");
+                let ej = format!("exec_jit:{pkt}");
+                for steps in [
+                    vec!["new:4", "helper", "jit_compile", "helper2", "jit_compile", &ej, &e],
+                    vec!["new:4", "helper2", "jit_compile", "helper", "jit_compile", &ej, &e],
+                    vec!["new:none", "helper", "set_program:4", "jit_compile", "helper2", "jit_compile", &ej],
+                    vec!["new:4", "helper", "jit_compile", &ej, "helper2", "jit_compile", &ej, "set_program:4", &ej, "jit_compile", &ej],
+                    vec!["new:0", "jit_compile", "set_program:4", "helper", "jit_compile", "jit_compile", &ej, "helper2", &ej, "jit_compile", &ej],
+                ] {
+                    cases.push(json!({"k":"seq","vm":kind,"progs":progs,"steps":steps}));
+                }
+            }
+        }
         s.count("api_sequence_cases", cases.len() as u64);
         s.sample("seq", || cases.last().cloned().unwrap_or(json!(null)));
         compare(s, &mut twin, cases);
-        s.done("API sequences on one VM (every kind, depth <= 4)");
+        s.done("API sequences on one VM (every kind, depth <= 4; plus histories of up to 11 calls around re-binding a helper between compilations)");
     }
     s.sample("asm", || json!({"k":"asm","t":"lddw r1, 0x1122334455667788\nexit"}));
 }
